@@ -346,5 +346,27 @@ _ADD5 = {
 }
 for _k, _r in _ADD5.items():
     PROPS[_k]['rule'] = PROPS[_k]['rule'] + _r
+# round-6 additions (rule text only)
+_ADD6 = {
+    'C01': ' Plus: evictDuringUpdate (a partial update parked in a slow handler while the real eviction body runs for another name of the type); batches of 15-45 unusable resources in one response.',
+    'C02': ' Plus: batches of 15-45 unusable resources in one response (the answer is a NACK with an error detail, however long the error list).',
+    'C03': ' Plus: doubleFailure (two stream failures in a row: the live stream\'s last requests are the interest sets).',
+    'C05': ' Plus: agedRecordCase (a resource delivered again after it had been removed and its access record aged 31 s); a harness process killed by the Go runtime inside the code under test, or blocked for a minute in one lock wait inside it, is reported as a violation with the report as replay.',
+    'C06': ' Plus: agedRecordCase.',
+    'C07': ' Plus: evictDuringUpdate; every second response of the policy-before-data rounds re-uses the previous version string; receiver-section cases stop after four steps that never came back.',
+    'C08': ' Plus: routeAcrossPush (a new table version pushed - handlers, then data - while the router reads the old one: later calls follow the new table).',
+    'C09': ' Plus: pickAcrossPush (a weight shift arriving during an earlier call); picks of a cluster the matched route does not list are counted and judged.',
+    'C10': ' Plus: one resolver for the whole history; a second cluster backed by the same load assignment; endpoints whose address is not a socket address.',
+    'C11': ' Plus: twin routes whose header conditions differ in kind only (same names and pattern texts).',
+    'C12': ' Plus: the caller prunes the returned map between two deliveries of the same response; endpoint addresses that are not socket addresses.',
+    'C14': ' Plus: a looked-up name spelt like a listener of the push (<ip>_<port>): bound to nothing.',
+    'C15': ' Plus: a custom metadata extractor given as an option to middleware and retry policy alike; metadata that satisfies the route conditions.',
+    'C16': ' Plus: replacement updates (one cluster goes, one comes) right before late registrations; updates that arrive while nothing is subscribed; every entry of the breaker is judged.',
+    'C17': ' Plus: fully shifted splits and absent weights; route tables evicted between updates.',
+    'C18': ' Plus: a server limiter that is slow for one value (changes still arrive in order).',
+    'C20': ' Plus: metadata keys that equal NAMESPACE only when case is ignored.',
+}
+for _k, _r in _ADD6.items():
+    PROPS[_k]['rule'] = PROPS[_k]['rule'] + _r
 PROPS['C07']['level_note'] = 'PARTIAL: data-race freedom is the Go memory model (not modelled; the locking discipline, a dump-vs-update exclusion scenario and the race detector of the thorough tier are what is checked). Deadlock freedom: mutex order + progress of lookups + the request path at capacity (Flow layer); S12 and S15 are recorded findings. Trusted: Lean kernel; Go runtime; extractor (lockEdges, updateOrder, flow facts, regShape); harness.'
 PROPS['C07']['assumptions'] = [a for a in PROPS['C07']['assumptions'] if 'outside the model (documented limitation S12)' not in a] + ['the lock-nesting edges come from a syntactic intra-package call graph (function names)']
